@@ -51,6 +51,56 @@ def r1(ctx, table):
                      "%s:%d" % (r.file, r.line), detail)
         else:
             ctx.ok(rule, "read:" + cls, detail)
+    # the class bits reach the wire: bit provenance of the octet handed to write_all (OR keeps, AND with a constant filters)
+    def const_val(e):
+        e = F.strip_casts(e)
+        if e[0] == "const":
+            return e[1] & 0xFF
+        if e[0] == "un" and e[1] == "Not":
+            v = const_val(e[2])
+            return None if v is None else (~v) & 0xFF
+        return None
+
+    def class_mask(e):
+        """bits of the written octet that can still carry what the class table put there"""
+        e = F.strip_casts(e)
+        if e[0] == "phi" and all(F.strip_casts(a)[0] == "const" and (a[3] or "").split("::")[-1].startswith("CLASS_BITS_") for a in e[1]):
+            m = 0
+            for a in e[1]:
+                m |= a[1]
+            return m
+        if e[0] == "bin":
+            op = X.norm_op(e[1])
+            l, r_ = class_mask(e[2]), class_mask(e[3])
+            if op in ("BitOr", "BitXor", "Add"):
+                return l | r_
+            if op == "BitAnd":
+                cl, cr = const_val(e[2]), const_val(e[3])
+                if cr is not None:
+                    return l & cr
+                if cl is not None:
+                    return r_ & cl
+                return l | r_
+            return 0
+        return 0
+    written = None
+    for cs in w.calls():
+        if cs.name == "write_all":
+            a = Ow.call_args(cs)
+            for e in X.walk(a[1] if len(a) > 1 else a[0]):
+                if e[0] == "agg" and e[1] == "array" and e[4]:
+                    written = (e[4][0][1], cs.loc())
+    if written is None:
+        ctx.fail(rule, "write:anchor-lost:octet", "write_identifier no longer hands a one-octet array to write_all", "%s:%d" % (w.file, w.line))
+    else:
+        m = class_mask(written[0])
+        d2 = {"written_octet": F.rd(written[0])[:200], "class_bits_that_reach_the_wire": "0x%02X" % m}
+        if m & table["class_mask"] != table["class_mask"]:
+            ctx.fail(rule, "write:class-reaches-wire", "only the bits 0x%02X of the class table reach the written octet (X.690 8.1.2.2: bits 8 "
+                                                       "and 7 carry the class): every tag is written as if it were of another class" % m,
+                     written[1], d2)
+        else:
+            ctx.ok(rule, "write:class-reaches-wire", d2)
     # mask
     ffr = R.FnFacts(P, r, include_closures=False)
     if "BitAnd %d" % table["class_mask"] not in ffr.constops or "BitAnd %d" % (255 - table["class_mask"]) not in ffr.constops:
